@@ -5,6 +5,8 @@ use codespan_reporting::diagnostic::{LabelStyle, Severity};
 use codespan_reporting::files::SimpleFile;
 use lsp_types::*;
 use rustc_hash::FxHashMap;
+#[cfg(lelwel_verif)]
+use ::lelwel_verif_shim::std_ide as std;
 use std::sync::mpsc;
 use std::thread::JoinHandle;
 
